@@ -327,6 +327,33 @@ func c11Roundtrip(c c11Case) *vstat.Violation {
 		if err := confparse.ValidatePubKey(ps, id); err != nil {
 			return vstat.Viol("roundtrip/validate-pubkey", "%v", err)
 		}
+		// an encoding handed out earlier survives later calls with other keys (encode A, encode B, then use A's bytes)
+		k2 := gen.KeyFromSeed(append(append([]byte{}, c.Seed...), 0x5a))
+		encoders := []struct {
+			site string
+			f    func(crypto.PrivKey) ([]byte, error)
+		}{
+			{"proto-priv", func(x crypto.PrivKey) ([]byte, error) { return crypto.MarshalPrivateKey(x) }},
+			{"proto-pub", func(x crypto.PrivKey) ([]byte, error) { return crypto.MarshalPublicKey(x.GetPublic()) }},
+			{"pem-priv", func(x crypto.PrivKey) ([]byte, error) { return keypem.MarshalPrivKeyPem(x) }},
+			{"pem-pub", func(x crypto.PrivKey) ([]byte, error) { return keypem.MarshalPubKeyPem(x.GetPublic()) }},
+			{"raw-priv", func(x crypto.PrivKey) ([]byte, error) { return x.Raw() }},
+			{"raw-pub", func(x crypto.PrivKey) ([]byte, error) { return x.GetPublic().Raw() }},
+			{"conf-pem-priv", func(x crypto.PrivKey) ([]byte, error) { return confparse.MarshalPrivateKeyPEM(x) }},
+		}
+		for _, e := range encoders {
+			out1, err := e.f(k)
+			if err != nil {
+				continue
+			}
+			keep := append([]byte{}, out1...)
+			if _, err := e.f(k2); err != nil {
+				continue
+			}
+			if !bytes.Equal(out1, keep) {
+				return vstat.Viol("encoding-overwritten/"+e.site, "%s: the bytes returned for one key changed when another key was encoded afterwards", e.site)
+			}
+		}
 		return nil
 	})
 }
